@@ -4,5 +4,5 @@
 import sys
 sys.path[:0] = ['/repo' + "/pulser-core", '/repo' + "/pulser-simulation", "/verif"]
 from symx.replay import replay
-sys.exit(replay(check='checks.c10', kernel='eom', shape={'own': {'clock': 1, 'local': False, 'slots': ['pulseA', 'delay'], 'mod': True, 'pj': 'custom', 'det_off': 0.0, 'eom': {'custom_buffer': False, 'blocks': [(0, None)]}}, 'op': ['add_pulse', 'min-delay', 'B'], 'maxseq': False, 'nbarriers': 1},
-                assignment={'own.min_duration': 2, 'own.tr': 2, 'own.pjt': 1, 'own.eom_tr': 2, 'own.s0.dur': 2, 'own.s1.dur': 5, 'new.dur': 2, 'barrier0': 8, 'buf#1.start': 0, 'buf#1.end': 0, 'buf#2.start': 0, 'buf#2.end': 0, 'buf#9.start': 0, 'buf#9.end': 2, 'buf#10.start': 0, 'buf#10.end': 0}, label='c10:phase_jump_gap'))
+sys.exit(replay(check='checks.c10', kernel='eom', shape={'own': {'clock': 1, 'local': False, 'slots': ['pulseA', 'delay'], 'mod': True, 'pj': 'derived', 'det_off': 0.0, 'eom': {'custom_buffer': False, 'blocks': [(2, None)]}}, 'op': ['add_pulse', 'min-delay', 'B'], 'maxseq': True, 'nbarriers': 1},
+                assignment={'max_sequence_duration': 5, 'own.min_duration': 1, 'own.tr': 1, 'own.eom_tr': 1, 'own.s0.dur': 1, 'own.s1.dur': 2, 'new.dur': 1, 'barrier0': 4, 'buf#1.start': 0, 'buf#1.end': 0, 'buf#2.start': 0, 'buf#2.end': 0, 'buf#3.start': 0, 'buf#3.end': 0, 'buf#4.start': 0, 'buf#4.end': 0, 'buf#11.start': 0, 'buf#11.end': 1, 'buf#12.start': 0, 'buf#12.end': 0}, label='c10:phase_jump_gap'))
